@@ -12,6 +12,7 @@ from ref import block_server as bs
 from props.c12 import Obs, dview, lview, gfault, INDEX, _setup
 
 PROP = "C13"
+ANCHORS = [('canopen.sdo.client', 'BlockUploadStream'), ('canopen.sdo.client', 'SdoClient.request_response'), ('canopen.sdo.client', 'SdoClient.read_response'), ('canopen.sdo.base', 'CrcXmodem')]
 MODEL_VO = ["theories/Model/BlockUl.vo"]
 COQ_IMPORTS = "From CV Require Import Model.Crc Model.RefBlockServer Model.BlockDl Model.BlockUl."
 COQ_RUN = "run_blockul"
